@@ -2,8 +2,9 @@
 (***************************************************************************)
 (* Exact rational transcription of the mesh generators for uniform         *)
 (* spacing: gen_rect_mesh / generate_mesh (full, symmetric half, offset),  *)
-(* getFullMesh (from a left or a right half), the symmetric multi-section  *)
-(* generator (generate_section_geometry + stitch + output_oas_mesh) and    *)
+(* getFullMesh (from a left or a right half), the multi-section generator *)
+(* (symmetric half, and full span with any root section:                   *)
+(* generate_section_geometry + stitch + output_oas_mesh) and               *)
 (* unify_mesh; with the well-formedness properties of C14 as invariants.   *)
 (* Cosine spacing uses the uninterpreted Cos and is checked by the harness *)
 (* on the code's output against the same invariants.                       *)
@@ -49,27 +50,39 @@ FullMeshRoundTrip == (RectCase /\ c.sym /\ c.off = <<RZero, RZero, RZero>>) =>
       IN /\ FullFromLeft(M, c.nx, nyh) = F
          /\ FullFromRight(right, c.nx, nyh) = F
 
-(* ---------------- symmetric multi-section wing ----------------------------------------------------- *)
-\* sections listed tip -> root (root section last); sec = [ny, span, taper, tan]
-\* generate_section_geometry, symmetric branch, built from the root outwards
+(* ---------------- multi-section wing (symmetric half, or full span with any root section) ---------- *)
+\* sections listed left -> right; sec = [ny, span, taper, tan]; cc.root = 1-based index of the root section
+\* (symmetric surfaces: the last one).  generate_section_geometry builds the root section and everything left
+\* of it from the root outwards (first loop), then - full-span surfaces only - every section right of the root
+\* from its inboard (left) neighbour's shared edge (second loop).
+LeftSide(cc, s) == s <= cc.root
 RECURSIVE SecGeom(_, _)
-\* returns [rc, rte, ry] of the INBOARD edge of section s (1-based), i.e. the outboard edge of section s+1
-SecRoot(cc, s) == IF s = Len(cc.secs) THEN [rc |-> cc.rootc, rte |-> RZero, ry |-> RZero]
-                  ELSE LET g == SecGeom(cc, s + 1) IN [rc |-> g.tipc, rte |-> g.tipte, ry |-> g.tipy]
+\* [rc, rte, ry] of the INBOARD edge of section s: the requested root chord on y = 0 for the root section,
+\* otherwise the outboard edge of the neighbour on the root's side - except that the first right-hand
+\* section starts from the root section's own inboard edge (its last column, on y = 0)
+SecRoot(cc, s) == IF s = cc.root THEN [rc |-> cc.rootc, rte |-> RZero, ry |-> RZero]
+                  ELSE IF s < cc.root THEN LET g == SecGeom(cc, s + 1) IN [rc |-> g.tipc, rte |-> g.tipte, ry |-> g.tipy]
+                  ELSE IF s = cc.root + 1 THEN LET g == SecGeom(cc, s - 1) IN [rc |-> g.rc, rte |-> g.rte, ry |-> g.ry]
+                  ELSE LET g == SecGeom(cc, s - 1) IN [rc |-> g.tipc, rte |-> g.tipte, ry |-> g.tipy]
 SecGeom(cc, s) == LET r == SecRoot(cc, s)  sec == cc.secs[s]
                       tipc == RMul(r.rc, sec.taper)
                       rle == RAdd(r.rc, r.rte)
-                      tiple == RSub(rle, RMul(sec.span, sec.tan))
+                      \* the code's convention: tip_le = root_le - b tan on the left, root_le + b tan on the right
+                      tiple == IF LeftSide(cc, s) THEN RSub(rle, RMul(sec.span, sec.tan)) ELSE RAdd(rle, RMul(sec.span, sec.tan))
                   IN [rc |-> r.rc, rte |-> r.rte, ry |-> r.ry, rle |-> rle, tipc |-> tipc, tiple |-> tiple,
-                      tipte |-> RSub(tiple, tipc), tipy |-> RSub(r.ry, sec.span)]
-\* x of chordwise station i (0 = "leading edge" of the generator) at spanwise station k (0 = outboard edge) of section s
+                      tipte |-> RSub(tiple, tipc), tipy |-> IF LeftSide(cc, s) THEN RSub(r.ry, sec.span) ELSE RAdd(r.ry, sec.span)]
+\* spanwise station k (0 = first column = smallest y) of section s
+SecY(cc, s, k) == LET g == SecGeom(cc, s) IN
+      IF LeftSide(cc, s) THEN RAdd(g.tipy, RMul(cc.secs[s].span, <<k, cc.secs[s].ny - 1>>))     \* linspace(root_y - b, root_y, ny)
+      ELSE RAdd(g.ry, RMul(cc.secs[s].span, <<k, cc.secs[s].ny - 1>>))                              \* linspace(root_y, root_y + b, ny)
+\* x of chordwise station i (0 = "leading edge" of the generator) at spanwise station k of section s
 SecX(cc, s, i, k) == LET g == SecGeom(cc, s)  sec == cc.secs[s]
                          fx == <<i, cc.nx - 1>>
                          rootx == RAdd(g.rle, RMul(fx, RSub(g.rte, g.rle)))
                          tipx == RAdd(g.tiple, RMul(fx, RSub(g.tipte, g.tiple)))
-                         y == RAdd(g.tipy, RMul(sec.span, <<k, sec.ny - 1>>))            \* linspace(root_y - b, root_y, ny)
-                     IN RSub(rootx, RMul(RDiv(RSub(tipx, rootx), sec.span), RSub(y, g.ry)))
-SecY(cc, s, k) == LET g == SecGeom(cc, s) IN RAdd(g.tipy, RMul(cc.secs[s].span, <<k, cc.secs[s].ny - 1>>))
+                         dy == RSub(SecY(cc, s, k), g.ry)
+                     IN IF LeftSide(cc, s) THEN RSub(rootx, RMul(RDiv(RSub(tipx, rootx), sec.span), dy))
+                        ELSE RAdd(rootx, RMul(RDiv(RSub(tipx, rootx), sec.span), dy))
 \* output_oas_mesh reverses the chordwise order
 SecMesh(cc, s) == [i \in 0 .. cc.nx - 1 |-> [k \in 0 .. cc.secs[s].ny - 1 |-> <<SecX(cc, s, cc.nx - 1 - i, k), SecY(cc, s, k), RZero>>]]
 \* stitched mesh: all but the last column of every section but the last, then the whole last section
@@ -84,7 +97,18 @@ MultiCase == c.kind = "multi"
 EdgesCoincide == MultiCase => \A s \in 1 .. Len(c.secs) - 1 : \A i \in 0 .. c.nx - 1 :
       SecMesh(c, s)[i][c.secs[s].ny - 1] = SecMesh(c, s + 1)[i][0]
 MultiOrdered == MultiCase => LET S == Stitched(c) IN XIncreasing(S, c.nx, TotalNy(c)) /\ YIncreasing(S, c.nx, TotalNy(c))
-RootOnPlane == MultiCase => \A i \in 0 .. c.nx - 1 : Stitched(c)[i][TotalNy(c) - 1][2] = RZero
+\* the root section's inboard edge (its last column) lies on y = 0 with the requested root chord
+RootOnPlane == MultiCase => LET R0 == SecMesh(c, c.root)  k == c.secs[c.root].ny - 1 IN
+      /\ \A i \in 0 .. c.nx - 1 : R0[i][k][2] = RZero
+      /\ RSub(R0[c.nx - 1][k][1], R0[0][k][1]) = c.rootc
+\* every section has its requested span, and its outboard chord is taper x its inboard chord
+SectionExtents == MultiCase => \A s \in 1 .. Len(c.secs) :
+      LET Sm == SecMesh(c, s)  last == c.secs[s].ny - 1
+          inb == IF LeftSide(c, s) THEN last ELSE 0
+          outb == IF LeftSide(c, s) THEN 0 ELSE last
+          Chord(k) == RSub(Sm[c.nx - 1][k][1], Sm[0][k][1])
+      IN /\ RSub(Sm[0][last][2], Sm[0][0][2]) = c.secs[s].span
+         /\ Chord(outb) = RMul(c.secs[s].taper, Chord(inb))
 \* unify_mesh(sections, shift_uni_mesh=True): everything gathered so far is shifted so that its last leading-edge
 \* point meets the next section's first one (for every junction but the last), then the next section is appended
 Delta(cc, t) == VSubR(SecMesh(cc, t)[0][0], SecMesh(cc, t - 1)[0][cc.secs[t - 1].ny - 1])
@@ -100,10 +124,14 @@ Offs == {<<RZero, RZero, RZero>>, <<R(3), RZero, <<-1, 2>>>>, <<<<5, 2>>, R(7), 
 RectCases == {[kind |-> "rect", nx |-> nx, ny |-> ny, span |-> sp, chord |-> ch, sym |-> sy, off |-> o] :
                  nx \in 2..4, ny \in {3, 5, 7}, sp \in {R(10), <<7, 2>>}, ch \in {R(1), <<3, 2>>}, sy \in BOOLEAN, o \in Offs}
 Sec(ny, sp, tp, tn) == [ny |-> ny, span |-> sp, taper |-> tp, tan |-> tn]
-MultiCases == {[kind |-> "multi", nx |-> nx, rootc |-> R(2), secs |-> ss] : nx \in 2..3,
-                 ss \in {<<Sec(3, R(2), <<1, 2>>, <<1, 4>>), Sec(2, R(1), ROne, RZero)>>,
-                         <<Sec(2, R(1), <<1, 2>>, <<1, 2>>), Sec(3, R(3), <<3, 4>>, <<1, 4>>), Sec(4, R(2), ROne, RZero)>>,
-                         <<Sec(4, R(3), <<2, 3>>, <<-1, 4>>)>>}}
+SecLists == {<<Sec(3, R(2), <<1, 2>>, <<1, 4>>), Sec(2, R(1), ROne, RZero)>>,
+             <<Sec(2, R(1), <<1, 2>>, <<1, 2>>), Sec(3, R(3), <<3, 4>>, <<1, 4>>), Sec(4, R(2), ROne, RZero)>>,
+             <<Sec(4, R(3), <<2, 3>>, <<-1, 4>>)>>,
+             <<Sec(3, R(1), <<3, 4>>, <<1, 4>>), Sec(3, R(2), <<1, 2>>, <<1, 2>>), Sec(3, R(1), <<2, 3>>, <<-1, 4>>), Sec(5, R(2), <<4, 5>>, RZero)>>}
+\* symmetric half (root = last section) and full-span surfaces with every possible root section
+MultiCases == UNION {{[kind |-> "multi", nx |-> nx, rootc |-> R(2), secs |-> ss, sym |-> TRUE, root |-> Len(ss)] : nx \in 2..3}
+                     \cup {[kind |-> "multi", nx |-> nx, rootc |-> R(2), secs |-> ss, sym |-> FALSE, root |-> r] : nx \in 2..3, r \in 1 .. Len(ss)}
+                     : ss \in SecLists}
 
 Fl(m, nx, ny) == [i \in 1 .. nx |-> [j \in 1 .. ny |-> m[i - 1][j - 1]]]
 Emit == PrintT(<<"EMIT", ToJson(IF RectCase THEN [case |-> c, mesh |-> Fl(M, c.nx, NyOut(c))]
